@@ -201,8 +201,25 @@ def ctx(R):
                  if n in g.succ_reach(cn, skip_edge=nx)]
         cl = set(w for (w, _) in lock_frames(R, g, cn))
         ok = bool(sends) and bool(cl) and all(cl & set(w for (w, _) in lock_frames(R, g, s)) for s in sends)
-        R.ob('C11.ctx', '%s: compress and transmit in one critical section' % f.name, ok,
-             'compression.compress() in %s runs outside the critical section that writes its output: two threads can '
-             'compress A then B but write B then A, and a context-takeover peer inflates in wire order' % f.qual,
-             func=f, node=call, construct='compress outside write lock in ' + f.name)
-    need(n_ >= 2, 'fewer than 2 Deflate.compress call sites found')
+        # public entry points through which this site is reached (the finding is keyed by them, so that moving the
+        # call into a private helper does not change its identity)
+        entries = _public_entries(R, f)
+        for ent in entries:
+            R.ob('C11.ctx', '%s: compress and transmit in one critical section' % ent.name, ok,
+                 'compression.compress() (in %s, reached from %s) runs outside the critical section that writes its '
+                 'output: two threads can compress A then B but write B then A, and a context-takeover peer inflates in '
+                 'wire order' % (f.qual, ent.qual), func=ent, node=(call if ent is f else None),
+                 construct='compress outside write lock in ' + ent.name)
+    need(n_ >= 1, 'no Deflate.compress call site found')
+
+
+def _public_entries(R, f, depth=0):
+    if not f.name.startswith('_') or depth > 2:
+        return [f]
+    out = []
+    for (c, call, t) in R.types.callers.get(f.qual, []):
+        if c.func.cls is not None and f.cls is not None and c.func.cls.qual == f.cls.qual and c.func is not f:
+            for e in _public_entries(R, c.func, depth + 1):
+                if e not in out:
+                    out.append(e)
+    return out or [f]
